@@ -90,7 +90,7 @@ pub fn generate(g: &mut G, _index: u64) -> Scenario {
         for s in slots[c].any() {
             ops.push(Op::Take { to: s });
         }
-        let n = g.range(1, 12);
+        let n = if g.thorough && g.chance(1, 3) { g.range(8, 24) } else { g.range(1, 12) };
         for _ in 0..n {
             let s = g.pick(&slots[c].any());
             let k = slots[c].get(s).unwrap();
